@@ -59,6 +59,8 @@ def check(run):
         F = run.facts(cfg)
         run.guard("C02.1.dispatch", cfg, lambda: rule_dispatch(run, F, cfg))
         run.guard("C02.1.leaves", cfg, lambda: rule_leaves(run, F, cfg))
+        run.guard("C02.1.leaves", cfg + "/table", lambda: rule_leaf_tables(run, F, cfg))
+        run.guard("C02.4.label-boundary", cfg + "/table", lambda: rule_anchoring_table(run, F, cfg))
         run.guard("C02.2.flag-names", cfg, lambda: rule_flags(run, F, cfg))
         run.guard("C02.3.regex-translation", cfg, lambda: rule_translation(run, F, cfg))
         run.guard("C02.4.label-boundary", cfg, lambda: rule_label_boundary(run, F, cfg))
@@ -346,3 +348,219 @@ def _slice_kind(f, p, which):
             if which == "before" and re.search(r"RangeFrom\{start: \(memchr::memmem::find\(arg:hostname, arg:filter_hostname\)@Some\.0 SubWithOverflow 1\)\.0\}$", rng):
                 return True
     return False
+
+
+# per-pattern test of each leaf: (haystack regex, shape regex of the closure's value). `f` is the pattern.
+LEAF_TESTS = {
+    "check_pattern_plain_filter_filter": r"^std::option::Option::is_some\(memchr::memmem::find\(.*\)\)$|^core::str::contains\(up:request_url, arg:f\)$",
+    "check_pattern_left_anchor_filter": r"^core::str::starts_with\((…)?(up:request_url|var:request_url|_\d+), arg:f\)$",
+    "check_pattern_right_anchor_filter": r"^core::str::ends_with\((…)?(up:request_url|var:request_url|_\d+), arg:f\)$",
+    "check_pattern_left_right_anchor_filter": r"::eq\(.*arg:f\)$|^\(.* Eq .*\)$",
+    "check_pattern_hostname_anchor_filter": r"^core::str::contains\(up:url_after_hostname, arg:f\)$|^std::option::Option::is_some\(memchr::memmem::find\(",
+    "check_pattern_hostname_left_anchor_filter": r"^core::str::starts_with\(up:url_after_hostname, arg:f\)$",
+    "check_pattern_hostname_left_right_anchor_filter": r"::eq\(up:url_after_hostname, arg:f\)$",
+}
+
+
+def rule_leaf_tables(run, F, cfg):
+    """Each leaf matcher as a decision table over (anchored by hostname, pattern list empty): not anchored =>
+    false; anchored and no pattern => true (hostname-right-anchor: request host ends with the rule host);
+    otherwise `any` over ALL patterns of the un-negated per-pattern test."""
+    from analysis.pathinterp import enumerate_paths, path_value
+    for leaf, (what, prim, hosted) in LEAVES.items():
+        f = F.fn(NM + leaf)
+        if hosted:
+            bodies = [c for n, c in F.fns.items() if n.startswith(f.name + "::{closure") and n.count("{closure") == 1
+                      and c.calls(r"is_anchored_by_hostname$")]
+            outer = f.expr_local(0)
+            run.ob("C02.1.leaves", f"{leaf}:no-hostname-no-match",
+                   bool(re.match(r"^std::option::Option::unwrap_or\(std::option::Option::map\(.*\), (false|true)\)$", outer)),
+                   f"{leaf} is hostname.map(<decision closure>).unwrap_or(<const>) ({outer[-40:]})", config=cfg)
+        else:
+            bodies = [f]
+        if len(bodies) != 1:
+            run.ob("C02.1.leaves", f"{leaf}:table", False, "decision body not found", status="UNDISCHARGED", config=cfg)
+            continue
+        g = bodies[0]
+        rows = []
+        for p in enumerate_paths(g):
+            if p.end != "return":
+                continue
+            a = {}
+            extra = []
+            for e, v in p.conds:
+                if re.search(r"is_anchored_by_hostname\(", e):
+                    a["ANCH"] = v
+                elif re.match(r"^\(std::iter::ExactSizeIterator::len\((arg|up):filters\) Eq 0\)$", e):
+                    a["EMPTY"] = v
+                else:
+                    extra.append((e, v))
+            rows.append((a, extra, path_value(g, p, 0) or ""))
+        bad = []
+        for a, extra, val in rows:
+            anch = a.get("ANCH", 1 if not hosted else None)
+            if hosted and anch is None:
+                bad.append(("anchoring undecided", val[:60]))
+                continue
+            if anch == 0:
+                if val != "false" or extra:
+                    bad.append(("not anchored must be false", val[:60]))
+                continue
+            if "EMPTY" not in a:
+                # only the regex-free delegating leaves may skip the emptiness test
+                bad.append(("emptiness undecided", val[:60]))
+                continue
+            if a["EMPTY"] == 1:
+                if leaf == "check_pattern_hostname_right_anchor_filter":
+                    okv = (val == "true" and len(extra) == 1 and extra[0][1] == 1 and
+                           re.search(r"len\(up:request\.hostname\) Eq core::str::len\(arg:hostname\)\)$", extra[0][0])) or \
+                          (re.match(r"^core::str::ends_with\(.*, arg:hostname\)$", val) and len(extra) == 1 and extra[0][1] == 0)
+                    if not okv:
+                        bad.append(("empty pattern: request host must end with the rule host", val[:60]))
+                elif val != "true" or extra:
+                    bad.append(("empty pattern must match", val[:60]))
+                continue
+            if extra:
+                bad.append(("extra decision on the pattern path", extra[0][0][-60:]))
+            if leaf == "check_pattern_hostname_right_anchor_filter":
+                if not re.match(r"^filters::network_matchers::check_pattern_right_anchor_filter\(up:mask, up:filters, up:request\)$", val):
+                    bad.append(("must delegate to the right-anchor leaf", val[:60]))
+                continue
+            m = re.match(r"^std::iter::Iterator::any\((arg|up):filters, closure\[([^\]]+)\]\(", val)
+            if not m:
+                bad.append(("result must be filters.any(test)", val[:60]))
+                continue
+            c = F.fns.get(m.group(2))
+            test = c.expr_local(0) if c else ""
+            nots = [1 for b, i, st in c.statements() if st["k"] == "assign" and st["rv"]["k"] == "unop"] if c else [1]
+            if not re.search(LEAF_TESTS[leaf], test) or nots:
+                bad.append(("per-pattern test", test[:80]))
+        run.ob("C02.1.leaves", f"{leaf}:table", not bad and len(rows) >= 2,
+               f"{leaf} ({what}): decision table over (anchored, no pattern) with an un-negated per-pattern test inside "
+               f"`any` ({len(rows)} paths; problems: {bad[:2]})", site=g.loc(0), config=cfg)
+    # regex hostname leaf
+    f = F.fn(NM + "check_pattern_hostname_anchor_regex_filter")
+    bodies = [c for n, c in F.fns.items() if n.startswith(f.name + "::{closure") and c.calls(r"is_anchored_by_hostname$")]
+    ok = len(bodies) == 1
+    if ok:
+        g = bodies[0]
+        vals = {}
+        for p in enumerate_paths(g):
+            if p.end == "return":
+                an = [v for e, v in p.conds if "is_anchored_by_hostname(" in e]
+                vals[an[0] if an else None] = path_value(g, p, 0) or ""
+        ok = vals.get(0) == "false" and bool(re.match(
+            r"^filters::network_matchers::check_pattern_regex_filter_at\(up:mask, up:filters, up:key, up:request, ", vals.get(1, "")))
+        # the regex is applied to the URL after the first occurrence of the rule's hostname
+        at = [g.vexpr_operand(t["args"][4]) for b, t in g.calls(r"check_pattern_regex_filter_at$")]
+        ok = ok and len(at) == 1 and "memchr::memmem::find(" in at[0] and "unwrap_or_default(" in at[0] \
+            and bool(re.search(r"AddWithOverflow core::str::len\((\$|arg:)hostname\)\)\.0$", at[0]))
+    run.ob("C02.1.leaves", "check_pattern_hostname_anchor_regex_filter:table", ok,
+           "hostname + regex leaf: false unless anchored; otherwise the regex leaf applied to the URL from "
+           "find(url, hostname) + hostname.len()", site=f.loc(0), config=cfg)
+
+
+def rule_anchoring_table(run, F, cfg):
+    """is_anchored_by_hostname as a truth table over its comparisons, checked against the label-boundary
+    specification on all valuations:
+        empty rule host -> true; longer than the request host -> false; same length -> equality;
+        not found -> false; found at 0 -> right boundary; found at the end -> left boundary; else both,
+      right boundary = wildcard || rule host ends with '.' || request host continues with '.'
+      left boundary  = rule host starts with '.' || the preceding request-host character is '.'"""
+    from analysis.pathinterp import enumerate_paths, path_value
+    import itertools
+    g = F.fn(NM + "is_anchored_by_hostname")
+    run.touched(g)
+    ATOM = [
+        (r"^\(core::str::len\(arg:filter_hostname\) Eq 0\)$", "L0"),
+        (r"^\(core::str::len\(arg:filter_hostname\) Gt core::str::len\(arg:hostname\)\)$", "GT"),
+        (r"^\(core::str::len\(arg:filter_hostname\) Eq core::str::len\(arg:hostname\)\)$", "EQ"),
+        (r"^discr\(memchr::memmem::find\(arg:hostname, arg:filter_hostname\)\)$", "FOUND"),
+        (r"^\(memchr::memmem::find\(arg:hostname, arg:filter_hostname\)@Some\.0 Eq 0\)$", "AT0"),
+        (r"^\(memchr::memmem::find\(arg:hostname, arg:filter_hostname\)@Some\.0 Eq \(core::str::len\(arg:hostname\) SubWithOverflow core::str::len\(arg:filter_hostname\)\)\.0\)$", "ATEND"),
+        (r"^arg:wildcard_filter_hostname$", "W"),
+        (r"^core::str::ends_with\(arg:filter_hostname, '\.'\)$", "FE"),
+        (r"^core::str::starts_with\(arg:filter_hostname, '\.'\)$", "FS"),
+        (r"^core::str::starts_with\(core::str::traits::index\(arg:hostname, std::ops::RangeFrom::RangeFrom\{start: core::str::len\(arg:filter_hostname\)\}\), '\.'\)$", "HN"),
+        (r"^core::str::starts_with\(core::str::traits::index\(arg:hostname, std::ops::RangeFrom::RangeFrom\{start: \(memchr::memmem::find\(arg:hostname, arg:filter_hostname\)@Some\.0 SubWithOverflow 1\)\.0\}\), '\.'\)$", "HP"),
+    ]
+
+    def atom(e):
+        e = re.sub(r"<str as std::ops::Index<[^>]*>>::index|core::str::traits::<impl std::ops::Index<[^>]*> for str>::index", "core::str::traits::index", e)
+        for rx, nme in ATOM:
+            if re.match(rx, e):
+                return nme
+        return None
+
+    rows = []
+    unknown = set()
+    for p in enumerate_paths(g):
+        if p.end != "return":
+            continue
+        a = {}
+        for e, v in p.conds:
+            k = atom(e)
+            if k is None:
+                unknown.add(e[:110])
+                continue
+            a[k] = 1 if v == 1 else 0
+        val = path_value(g, p, 0) or ""
+        if val not in ("true", "false"):
+            # the value is the last call on the path (starts_with(..) / eq(..)): render it in full
+            last = None
+            for b in p.blocks:
+                t = g.blocks[b]["t"]
+                if t["k"] == "call" and not t["dest"]["p"]:
+                    last = t
+            full = g.expr_call(last) if last else val
+            k = atom(full)
+            if k:
+                val = "atom:" + k
+            elif re.match(r"^std::cmp::impls::eq\(arg:filter_hostname, arg:hostname\)$|^core::str::traits::eq\(arg:filter_hostname, arg:hostname\)$", full):
+                val = "atom:SAME"
+            else:
+                unknown.add("value: " + full[:110])
+        rows.append((a, val))
+    okp = not unknown and len(rows) >= 8
+    run.ob("C02.4.label-boundary", "table:modelled", okp,
+           f"every comparison of is_anchored_by_hostname is one of the modelled atoms ({len(rows)} paths; unmodelled: "
+           f"{sorted(unknown)[:2]})", status=None if okp else "UNDISCHARGED", site=g.loc(0), config=cfg)
+    bad = []
+    n = 0
+    if okp:
+        names = ["L0", "GT", "EQ", "FOUND", "AT0", "ATEND", "W", "FE", "FS", "HN", "HP", "SAME"]
+        for bits in itertools.product((0, 1), repeat=len(names)):
+            v = dict(zip(names, bits))
+            # arithmetic consistency of the length atoms
+            if v["L0"] and v["GT"]:
+                continue
+            if v["GT"] and v["EQ"]:
+                continue
+            n += 1
+            right = v["W"] or v["FE"] or v["HN"]
+            left = v["FS"] or v["HP"]
+            if v["L0"]:
+                want = 1
+            elif v["GT"]:
+                want = 0
+            elif v["EQ"]:
+                want = v["SAME"]
+            elif not v["FOUND"]:
+                want = 0
+            elif v["AT0"]:
+                want = int(bool(right))
+            elif v["ATEND"]:
+                want = int(bool(left))
+            else:
+                want = int(bool(right and left))
+            got = set()
+            for a, val in rows:
+                if all(v[k] == x for k, x in a.items()):
+                    got.add(v[val[5:]] if val.startswith("atom:") else (1 if val == "true" else 0))
+            if got != {want}:
+                bad.append(({k: x for k, x in v.items() if x}, sorted(got), want))
+                if len(bad) > 3:
+                    break
+    run.ob("C02.4.label-boundary", "table", okp and not bad,
+           f"is_anchored_by_hostname equals the label-boundary specification on all {n} consistent valuations of its "
+           f"comparisons (first difference: {bad[:1]})", site=g.loc(0), config=cfg)
